@@ -464,19 +464,20 @@ func (obj *Package) Export(name string) {
 		}
 	}
 	if obj.vars != nil {
-		if vv := obj.vars[name]; vv != nil {
-			vv.Export = true
-			for _, u := range obj.Users {
-				u.mu.Lock()
-				if xv := u.vars[name]; xv == nil {
-					u.vars[name] = vv
-				}
-				u.mu.Unlock()
-			}
-		} else {
-			vv := newUnboundVar(name)
-			vv.Export = true
+		vv := obj.vars[name]
+		if vv == nil {
+			// Intern the symbol in this package.
+			vv = newUnboundVar(name)
+			vv.Pkg = obj
 			obj.vars[name] = vv
+		}
+		vv.Export = true
+		for _, u := range obj.Users {
+			u.mu.Lock()
+			if xv := u.vars[name]; xv == nil {
+				u.vars[name] = vv
+			}
+			u.mu.Unlock()
 		}
 	}
 	obj.mu.Unlock()
